@@ -80,6 +80,16 @@ What the seeded changes made me strengthen (each was a miss or an "undecided" be
   from another channeled subscriber's callback).
 * **C04-4, C06-4, C17-4**: caught by what was already there (witness `twostores`, Kani
   `O-C06-k-ddispatch-err-iff-refused`, witness `builder`).
+* **C09-4 (snapshot of the subscriber list hoisted above the before_dispatch hooks)**: sequentially equivalent, so
+  Verus accepts it; witness scenario `midhook` (unsubscribe while the middleware is parked in before_dispatch).
+* **C12-5 (vetoed action returns no effect vector, do_effect skipped), C18-6 (do_effect only when notifying)**:
+  witness scenario `storepipe`: the whole pipeline through a running store against the reference semantics, for every
+  verdict triple of one middleware (and 192 pairs), seven reducer chains; the `loop` suite is now also run for C11/C12.
+* **C05-4 = C03-4 (Effect::Action dispatched inline; C11-1 again)**: witness scenario `effectaction` (queue full, a
+  producer waiting, the reducer emits Effect::Action: the store must keep draining); stop clauses tagged C11 (C11-5).
+* One change of this wave was *not* kept: dropping `need_dispatch = true` from the Dispatch arm of `do_reduce` only
+  changes chains that mix Keep and Dispatch, which the quantifier of C03 leaves unspecified; the checks hold on it by
+  design (`flags_ok` pins the decision for unanimous chains only).
 * **C18-5 (error_occurred booked when an open store's channel refuses an action)**: the counter part of
   `O-C02-dispatch-open` was not tagged C18: split out as `O-C18-dispatch-open-counts-nothing`; Kani
   `O-C18-k-(d)dispatch-open-no-error`; the lock group is now also run for C18.
